@@ -1,9 +1,11 @@
-"""C15 pending rule (R15.29): the `except` clause that implements a lookup
+"""C15 extension (R15.29): the `except` clause that implements a lookup
 fallback must cover the exception the looked-up callee really raises.
 
-PARKED (pending_*: not loaded by check.py) - it fires on today's tree.
+Was parked as pending_c15_fallback_except.py while it fired; the defect (D69)
+is repaired in /repo b5d9a41 (`_store_local_or_cellvar` catches KeyError), so
+the rule is active.
 
-Confirmed defect (real VM, unmodified tree, python_version 3.12):
+Confirmed defect (real VM, tree before b5d9a41, python_version 3.12):
 
     G = 1
     def f():
@@ -166,7 +168,7 @@ def _resolve(ctx, mod, rel, fn, call):
   return list(_index(ctx).get(name, []))
 
 
-@rule("R15.29", "C15", floor=1)
+@rule("R15.29", "C15", floor=8)
 def r15_29(ctx):
   """A lookup-fallback handler covers the miss exception of the callee it guards."""
   for rel in CALLERS:
@@ -199,26 +201,30 @@ def r15_29(ctx):
 
 VM = "pytype/vm.py"
 BL = "pytype/blocks/blocks.py"
-_SITE = "    except ValueError:\n      return self.store_local(state, name, var)\n"
+_SITE = ("      idx = self.frame.f_code.get_cell_index(name)\n"
+         "    except KeyError:\n")
 _LOOKUP = "    return self._combined_vars[name]\n"
 
 VARIANTS = [
-    # the repair verified on the real VM (stub: `G: int`, `def f() -> None`)
-    {"name": "repair-catch-keyerror-too", "rule": "R15.29", "file": VM, "expect": "silent",
-     "old": _SITE, "new": _SITE.replace("ValueError", "(KeyError, ValueError)")},
-    {"name": "repair-callee-raises-valueerror", "rule": "R15.29", "file": BL, "expect": "silent",
-     "old": _LOOKUP,
-     "new": ("    try:\n      return self._combined_vars[name]\n"
-             "    except KeyError:\n      raise ValueError(name) from None\n")},
-    {"name": "repair-lookuperror", "rule": "R15.29", "file": VM, "expect": "silent",
-     "old": _SITE, "new": _SITE.replace("ValueError", "LookupError")},
-    {"name": "repair-callee-uses-index", "rule": "R15.29", "file": BL, "expect": "silent",
-     "old": _LOOKUP, "new": "    return self.localsplus.index(name)\n"},
-    # still wrong
+    # D69 (/repo b5d9a41) reverted: the handler written for a tuple.index() implementation
+    {"name": "revert-D69-handler-catches-valueerror", "rule": "R15.29", "file": VM, "expect": "fire",
+     "old": _SITE, "new": _SITE.replace("KeyError", "ValueError")},
     {"name": "handler-indexerror", "rule": "R15.29", "file": VM, "expect": "fire",
-     "old": _SITE, "new": _SITE.replace("ValueError", "IndexError")},
-    {"name": "repaired-handler-but-load-local-raises-valueerror", "rule": "R15.29", "expect": "fire",
-     "edits": [(VM, _SITE, _SITE.replace("ValueError", "(KeyError, ValueError)")),
-               (VM, "        and not var\n    ):\n      raise KeyError()\n",
-                "        and not var\n    ):\n      raise ValueError()\n")]},
+     "old": _SITE, "new": _SITE.replace("KeyError", "IndexError")},
+    # the callee changes how it signals a miss, the handler does not follow
+    {"name": "callee-uses-index-handler-keeps-keyerror", "rule": "R15.29", "file": BL,
+     "expect": "fire", "old": _LOOKUP, "new": "    return self.localsplus.index(name)\n"},
+    {"name": "load-local-raises-valueerror", "rule": "R15.29", "file": VM, "expect": "fire",
+     "old": "        and not var\n    ):\n      raise KeyError()\n",
+     "new": "        and not var\n    ):\n      raise ValueError()\n"},
+    # twins
+    {"name": "twin-handler-catches-both", "rule": "R15.29", "file": VM, "expect": "silent",
+     "old": _SITE, "new": _SITE.replace("KeyError", "(KeyError, ValueError)")},
+    {"name": "twin-handler-lookuperror", "rule": "R15.29", "file": VM, "expect": "silent",
+     "old": _SITE, "new": _SITE.replace("KeyError", "LookupError")},
+    {"name": "twin-callee-and-handler-agree-on-valueerror", "rule": "R15.29", "expect": "silent",
+     "edits": [(BL, _LOOKUP,
+                "    try:\n      return self._combined_vars[name]\n"
+                "    except KeyError:\n      raise ValueError(name) from None\n"),
+               (VM, _SITE, _SITE.replace("KeyError", "ValueError"))]},
 ]
